@@ -109,7 +109,7 @@ def record_random(args):
             # object is one key (a lock listing it twice would let one holder fill two quorum slots)
             from nacl.signing import VerifyKey
             a, b_ = _pk(seed_of(1)), _pk(seed_of(2))
-            for keys_, q in (([a, VerifyKey(a)], 2), ([a, b_, VerifyKey(a)], 3), ([VerifyKey(a), a], 2)):
+            for keys_, q in (([a, VerifyKey(a)], 2), ([a, b_, VerifyKey(a)], 3), ([VerifyKey(a), a], 2), ([a, a], 2), ([b_, a, a, b_], 3)):
                 try:
                     T.make_multisig_lock(keys_, q)
                     refused = False
